@@ -339,7 +339,11 @@ RetStep(m, ev) ==
                                       [] api = "generic" -> "+C14:hang+C13:hang"
                                       [] api \in {"get_plc_info", "get_module_info", "_list_identity", "list_identity"} -> "+C16:hang"
                                       [] OTHER -> ""))
-    ELSE IF ev.outcome = "exc" /\ ev.pycomm = 0 THEN Bad(m, "C10:foreign-exception+C13:foreign-exception" \o (IF api \in {"read", "write"} THEN "+C03:exception" ELSE ""))
+    ELSE IF ev.outcome = "exc" /\ ev.pycomm = 0 THEN Bad(m, "C10:foreign-exception+C13:foreign-exception" \o (IF api \in {"read", "write"} THEN "+C03:exception" ELSE "")
+                                                          \* a read that names an existing tag has a value to return: raising withholds it
+                                                          \o (IF api = "read" /\ m.kind # "slc" /\ m.lx.on /\ ev.faulted = 0 /\ Len(m.call.intent.items) <= 50
+                                                                 /\ \E i \in 1..Len(m.call.intent.items) : ExpectRead(m.lx, m.call.intent.items[i]).cls # "invalid"
+                                                              THEN "+C01:raised-for-existing" ELSE ""))
     ELSE IF api \in {"close", "exit"} /\ ev.connected # 0 THEN Bad(m, "C10:close-state")
     ELSE IF api \in {"close", "exit"} /\ ~m.closeFault /\ m.alive /\ ev.faulted = 0
             /\ (m.sessions # {} \/ \E i \in 1..Len(m.conns) : m.conns[i].cid \in m.dConns) THEN Bad(m, "C10:target-dirty")
